@@ -12,7 +12,7 @@ LEVEL = "exploration"
 TECHNIQUE = "bounded-exhaustive enumeration of every input sequence (all multisets in all orders) over a colliding-key record alphabet through run_sort, against a stable-sort reference"
 RULE = (
     "graphs: a two-chromosome bubble chain tagged (i) by the real order_gfa (pipeline composition) and (ii) by the harness with an extra "
-    "node carrying BO=NO=-1; records: a 17/18-record alphabet (strands + and -) whose keys collide pairwise in every prefix of (BO, NO, start) - equal BO / "
+    "node carrying BO=NO=-1; records: an 18/19-record alphabet (strands + and -) whose keys collide pairwise in every prefix of (BO, NO, start) - equal BO / "
     "different NO, equal (BO,NO) / different start, exact ties, a reverse-anchored record tying with a forward one, one untagged key, a "
     "second chromosome; inputs: every sequence of <=N records (N=4 quick, 5 thorough), i.e. every multiset in every order. "
     "evaluations = sort runs; non-trivial = sequences of >=2 records that are not already in sorted order or contain a tie."
@@ -33,11 +33,13 @@ NSHARD = {"quick": 16, "thorough": 48}
 
 
 def bounds(tier):
-    return {"max_records_per_file": 4 if tier == "quick" else 5, "alphabet": 18, "graphs": 2}
+    return {"max_records_per_file": 4 if tier == "quick" else 5, "alphabet": 19, "graphs": 3}
 
 
 # the strand column (the read's strand) has no part in the sort key; some records carry '-'
 STRAND = {"B": "-", "D": "-", "G": "-", "L": "-", "J": "-"}
+# records that went through an earlier sort against another build of the graph: they arrive with bo/sn/iv fields
+STALE = {"C": ["bo:i:41", "sn:Z:CHM13#0#chr1", "iv:i:0"], "K": ["bo:i:0", "sn:Z:unknown", "iv:i:1"]}
 
 
 def alphabet(g, c1, c2, untagged):
@@ -55,6 +57,7 @@ def alphabet(g, c1, c2, untagged):
         ("E", f">{b}>{s2}", 1, 3),
         ("F", f">{b}>{s2}", 1, 2),  # exact key tie with E
         ("G", f"<{s2}<{a}", 1, la),  # reverse-anchored on a with start 0: ties with C
+        ("R", f"<{s2}<{a}", 1, la - 1),  # same path and same path start as G, another end: reverse-anchored start 1
         ("I", f">{sc2[0]}", 0, 1),
         ("J", f">{s1}>{a}", 9, 11),  # two-digit starts: 9 < 10 numerically, "10" < "9" as strings
         ("K", f">{s1}>{a}", 10, 12),
@@ -85,6 +88,9 @@ def graphs(scratch):
     # which graph an earlier sort call in the same process used
     m = sc.tag_by_model(g, [c2, c1], True, bo_start=7)
     out.append(("hand-tagged", m, alphabet(m, c1, c2, True)))
+    # chromosomes ordered separately and concatenated: both BO ranges start at 0 (files of <= 3 records on this one)
+    o = sc.tag_by_model(g, [c1, c2], True, restart_per_chain=True)
+    out.append(("overlapping-BO-ranges", o, alphabet(o, c1, c2, True)))
     return out, t is None
 
 
@@ -105,7 +111,7 @@ def large_file(res, scratch, tier, nrec):
     recs = []
     for pos in range(nrec):
         name, path, ps, pe = alpha[(pos * 7 + pos // len(alpha)) % len(alpha)]
-        recs.append(sc.rec_on(g, f"{name}.{pos}", path, ps, pe, strand=STRAND.get(name, "+")))
+        recs.append(sc.rec_on(g, f"{name}.{pos}", path, ps, pe, strand=STRAND.get(name, "+"), extra=STALE.get(name, ())))
     gaf = os.path.join(scratch, "large.gaf")
     fw.write_text(gaf, "".join(r.line() + "\n" for r in recs))
     out = sc.run_sort(scratch, gfa_path, gaf)
@@ -128,7 +134,7 @@ def judge_file(res, scratch, gname, g, gfa_path, seq, alpha):
     recs = []
     for pos, ai in enumerate(seq):
         name, path, ps, pe = alpha[ai]
-        recs.append(sc.rec_on(g, f"{name}.{pos}", path, ps, pe, strand=STRAND.get(name, "+")))
+        recs.append(sc.rec_on(g, f"{name}.{pos}", path, ps, pe, strand=STRAND.get(name, "+"), extra=STALE.get(name, ())))
     text = "".join(r.line() + "\n" for r in recs)
     gaf = os.path.join(scratch, "in.gaf")
     fw.write_text(gaf, text)
@@ -178,7 +184,7 @@ def run_shard(spec, tier, scratch):
         gfa_path = os.path.join(scratch, gname + ".gfa")
         # the hand-tagged graph is written with its L lines first and its S lines in reverse order
         fw.write_text(gfa_path, g.text() if gname == "pipeline" else ("".join(l.line() + "\n" for l in g.links) + "".join(x.line() + "\n" for x in reversed(list(g.segs.values()))))[:-1])  # and no newline after its last line
-        for k in range(1, maxn + 1):
+        for k in range(1, (min(maxn, 3) if gname == "overlapping-BO-ranges" else maxn) + 1):
             for seq in itertools.product(range(len(alpha)), repeat=k):
                 n += 1
                 if n % spec["of"] != spec["shard"]:
@@ -186,7 +192,7 @@ def run_shard(spec, tier, scratch):
                 judge_file(res, scratch, gname, g, gfa_path, list(seq), alpha)
         # what the next graph's sort calls are preceded by in this process
         name0, path0, ps0, pe0 = alpha[0]
-        HISTORY["prev"] = {"gfa": open(gfa_path).read(), "records": [sc.rec_on(g, f"{a[0]}.0", a[1], a[2], a[3], strand=STRAND.get(a[0], "+")).line() for a in alpha]}
+        HISTORY["prev"] = {"gfa": open(gfa_path).read(), "records": [sc.rec_on(g, f"{a[0]}.0", a[1], a[2], a[3], strand=STRAND.get(a[0], "+"), extra=STALE.get(a[0], ())).line() for a in alpha]}
         if spec["shard"] == 0:
             res.sample({"graph": gname, "alphabet": [{"name": a[0], "path": a[1], "start": a[2], "end": a[3], "key": sc.sort_key(g, sc.rec_on(g, a[0], a[1], a[2], a[3]))} for a in alpha]})
     return res
